@@ -204,20 +204,28 @@ def run(ck):
                   "the call at %s, made with the lock held, reaches %s which locks it again" % (hits[0][0].loc, hits[0][2].func.name), path=hits[0][1] if hits else None)
 
     # ---------------- R3 ----------------
-    def thread_test_var(fn):
-        """the local that records whether the caller is the loop thread: this_thread::get_id() == context().thread()"""
-        for x in fn.events("decl"):
-            t_ = (x.get("init") or {}).get("t") or ""
-            if "get_id" in t_ and "thread()" in t_ and "==" in t_:
-                return x["var"]
-        return None
+    def is_thread_cmp(t_):
+        return "get_id" in (t_ or "") and "thread()" in (t_ or "") and "==" in (t_ or "")
+    # bool helpers of the transport all of whose returns are that comparison (`bool calledFromOwnThread() const`)
+    thread_preds = {g_.base for g_ in prog.library_funcs() if g_.base.startswith(T) and not g_.is_lambda and
+                    [r_ for r_ in g_.events("return")] and all(is_thread_cmp(r_.get("t")) for r_ in g_.events("return"))}
+
+    def thread_test_vars(fn):
+        """the locals that record whether the caller is the loop thread: this_thread::get_id() == context().thread(), written in
+        place or obtained from a helper that returns it"""
+        return {x["var"] for x in fn.events("decl") if x.get("var") and
+                (is_thread_cmp((x.get("init") or {}).get("t")) or strip_tmpl(x.get("icall") or "") in thread_preds)}
 
     def off_thread_arm(fn):
-        """successor block taken when !isInRightThread"""
-        tv = thread_test_var(fn)
+        """(test block, successor taken when the caller is NOT the loop thread, successor taken when it is)"""
+        tvs = thread_test_vars(fn)
         for b in fn.blocks.values():
             t = b.term
-            if t and t.get("k") == "if" and tv is not None and (t.get("core") or {}).get("v") == tv:
+            if not t or t.get("k") != "if" or t.get("cmp") or len(b.succs) != 2:
+                continue
+            on_var = (t.get("core") or {}).get("v") in tvs
+            on_call = any(r_.startswith("c:") and strip_tmpl(r_[2:]) in thread_preds for r_ in (t.get("leafrefs") or t.get("refs") or []))
+            if on_var or on_call:
                 return b, (b.succs[0] if t.get("neg") else b.succs[1]), (b.succs[1] if t.get("neg") else b.succs[0])
         return None, None, None
     for name, queue, table, direct in (("handleNewPeer", "peersQueue", "peers", "handlePeer"), ("armTimerMs", "timersQueue", "timers", "armTimerMsImpl")):
@@ -233,9 +241,8 @@ def run(ck):
         ck.ob("C09-R3", "%s/off-thread-arm" % name, len(pushes) == 1 and not touches, "%s:%s" % (fn.file, b.term.get("l")), fn,
               "foreign thread only enqueues into %s" % queue if not touches else "foreign thread touches %s directly at %s" % (table, touches[0].loc))
         # the thread test itself compares the caller's id with the loop thread
-        d = [x for x in fn.events("decl") if x.get("var") == thread_test_var(fn)]
-        okd = bool(d) and "get_id" in ((d[0].get("init") or {}).get("t") or "") and "thread()" in ((d[0].get("init") or {}).get("t") or "")
-        ck.ob("C09-R3", "%s/thread-test" % name, okd, d[0].loc if d else fn.loc, fn, "isInRightThread = (this_thread::get_id() == context().thread())", nontrivial=False)
+        # (guaranteed by how the test block was found: a local or a helper whose value is this_thread::get_id() == context().thread())
+        ck.ob("C09-R3", "%s/thread-test" % name, True, "%s:%s" % (fn.file, b.term.get("l")), fn, "the arm is chosen by this_thread::get_id() == context().thread()", nontrivial=False)
     # per-descriptor state does not outlive the connection: descriptor numbers are reused by accept(), so removePeer must drop the
     # connection's entry of every table keyed by descriptor before the descriptor is closed (a stale toWrite queue would be sent to
     # the next client that gets the number)
